@@ -13,7 +13,8 @@ META = {
         "from text on exact half-pence. R2 (no binary floats): no Decimal→f64/f32 conversion lies on a path to a displayed "
         "figure. R3: the plain and PDF formatters never Display a Decimal directly, only through the shared cgt-format "
         "helpers. R4 (formats): dates are printed with %d/%m/%Y, tax years as {}/{:02} of (start+1) % 100, GBP through "
-        "one helper called with '£' and 2 decimals, negatives as -£. Does not analyse the Typst template's own arithmetic "
+        "one helper called with '£' and 2 decimals, negatives as -£. R5 (exact quantities): in the derived serializers of the report "
+        "model no quantity / amount / ratio field goes through a serialize_with (rounding) helper. Does not analyse the Typst template's own arithmetic "
         "(no Typst analyser available) and does not compare rendered outputs."),
     "trusted_base": ["rust_decimal: round_dp is MidpointNearestEven; round_dp_with_strategy honours the strategy",
                      "core::fmt template encoding", "the Typst template (report.typ) is outside the analysis"],
@@ -184,8 +185,41 @@ def formats(F, rep):
            f"only {uses} calls to format_gbp in the text formatter", "", key="R4:plain:format_gbp-uses")
 
 
+QUANTITY_FIELDS = ("quantity", "amount", "ratio")
+
+
+def exact_quantities(F, rep):
+    """R5: in the derived serializers of the report model, share quantities and split ratios are written as the Decimal
+    itself — never through a `serialize_with` helper (those round to pence) — so JSON shows each quantity exactly like
+    the text and PDF reports do"""
+    n = 0
+    for b in F.bodies.values():
+        if b.crate != "cgt_core" or not (b.mac or "").startswith("derive:serde_derive::Serialize") or not b.id.endswith("::serialize"):
+            continue
+        if "__SerializeWith" in b.id:
+            continue
+        for i, t in b.calls():
+            if parse_callee(t["callee"])[2] != "serialize_field" or len(t["args"]) < 3:
+                continue
+            k = _const_through(b, t["args"][1])
+            name = (k or {}).get("str")
+            if name not in QUANTITY_FIELDS:
+                continue
+            vty = (t.get("aty") or ["", "", ""])[2]
+            n += 1
+            ok = "__SerializeWith" not in vty
+            owner = b.id.split(" for ")[-1].split(">")[0].split("::")[-1]
+            rep.ob("R5", f"{owner}.{name}:exact", ok, f"`{name}` is serialised as the exact Decimal" if ok else
+                   f"{owner}.{name} is serialised through a serialize_with helper (money rounding): the JSON quantity differs from the text/PDF quantity",
+                   b.loc(t["sp"]), key=f"R5:{owner}.{name}:rounded-quantity")
+    rep.count("quantity_fields_serialised", n)
+    if n < 4:
+        rep.unresolved("R5", "quantity-fields", f"only {n} quantity/ratio fields found in derived serializers of the report model")
+
+
 def run(ctx, rep):
     F = ctx.F
+    exact_quantities(F, rep)
     n = rounding(F, rep)
     if n < 3:
         rep.unresolved("R1", "rounding-sites", f"only {n} rounding calls found in presentation code")
